@@ -28,6 +28,8 @@ import hashlib
 import io
 import os
 import pickle
+import shutil
+import tempfile
 import zlib
 
 import numpy as np
@@ -898,12 +900,9 @@ class World:
     """two paths in a scratch directory, kept handles, the catalogue objects of one history"""
 
     def __init__(self, directory, kinds, features):
-        os.makedirs(directory, exist_ok=True)
-        self.dir = directory
+        os.makedirs(os.path.dirname(directory) or '.', exist_ok=True)
+        self.dir = directory = tempfile.mkdtemp(prefix=os.path.basename(directory) + '_', dir=os.path.dirname(directory) or '.')
         self.paths = {p: os.path.join(directory, f'file{p}.dat') for p in (1, 2)}
-        for p in self.paths.values():
-            if os.path.exists(p):
-                os.remove(p)
         self.kinds = list(kinds)
         self.features = list(features)
         self.obj = {o + 1: build(k, o + 1, f) for o, (k, f) in enumerate(zip(kinds, features))}
@@ -920,13 +919,7 @@ class World:
             except Exception:
                 pass
         self.kept = {}
-        for p in self.paths.values():
-            if os.path.exists(p):
-                os.remove(p)
-        try:
-            os.rmdir(self.dir)
-        except OSError:
-            pass
+        shutil.rmtree(self.dir, ignore_errors=True)
 
     def situation(self, e):
         p = self.paths[e['p']]
@@ -958,7 +951,11 @@ class World:
             if f is None:
                 f = self.kept[e['p']] = self._open(path)
             out, ex = try_save(ob, f, e['fmt'], e['ow'])
-            f.flush()
+            if f.closed:
+                if ex is None:
+                    out, ex = 'Raises', IOError("the save closed the caller's open file object")
+            else:
+                f.flush()
             self.kept_used.add(e['p'])
         return out, ex
 
@@ -1182,10 +1179,18 @@ def record_history(seed, length, directory, safe, modes=('path', 'fresh', 'kept'
 def matrix_case(kind, cid, feature, directory, second_generation=True):
     """every object of the catalogue x format x target kind: save, load, compare.
     -> list of (key suffix, what, detail) and the number of round trips done"""
+    os.makedirs(directory, exist_ok=True)
+    directory = tempfile.mkdtemp(prefix='mx_', dir=directory)
+    try:
+        return _matrix_case(kind, cid, feature, directory, second_generation)
+    finally:
+        shutil.rmtree(directory, ignore_errors=True)
+
+
+def _matrix_case(kind, cid, feature, directory, second_generation):
     cls, demanded = feature_class(kind, feature)
     out, n = [], 0
     failed = set()
-    os.makedirs(directory, exist_ok=True)
     try:
         ob = build(kind, cid, feature)
         pristine = build(kind, cid, feature)
@@ -1343,6 +1348,15 @@ def rdms_structural(seed, length, directory, const=None, script=None):
     holds for B).  Finally every live object is round-tripped and compared with the oracle.
     -> dict(viol=[...], steps, trace (run B in Trace_RdmsStore format) or None, skipped reason)"""
     from harness import rdmstore as S
+    os.makedirs(directory, exist_ok=True)
+    directory = tempfile.mkdtemp(prefix='rs_', dir=directory)       # private to this job
+    try:
+        return _rdms_structural(S, seed, length, directory, const, script)
+    finally:
+        shutil.rmtree(directory, ignore_errors=True)
+
+
+def _rdms_structural(S, seed, length, directory, const, script):
     rng = np.random.default_rng(seed)
     const = const or {'NR': 3, 'NC': 4, 'MaxObj': 3, 'MaxRows': 4, 'MaxPats': 4, 'NanPairs': {(2, 1, 3)}}
     flavour = S.FLAVOURS[seed % 4]
@@ -1512,6 +1526,15 @@ def dataset_structural(seed, length, directory, safe):
     """Dataset / TemporalDataset: random operation histories run in lock-step on the original (A)
     and on a twin (B) that is replaced by its save/load copy at random points; the oracle compares
     A and B after every step, and the final object is round-tripped in every format."""
+    os.makedirs(directory, exist_ok=True)
+    directory = tempfile.mkdtemp(prefix='ds_', dir=directory)       # private to this job
+    try:
+        return _dataset_structural(seed, length, directory, safe)
+    finally:
+        shutil.rmtree(directory, ignore_errors=True)
+
+
+def _dataset_structural(seed, length, directory, safe):
     rng = np.random.default_rng(seed)
     kind = 'TemporalDataset' if seed % 2 else 'Dataset'
     fs = [f for f in safe[kind] if not f.startswith('size-min')]
